@@ -2,6 +2,7 @@
    Property theorems only (proved in Proofs/); f is an arbitrary swept function, the grid has
    any number of arguments and values, p is any permutation. *)
 From XV Require Import Prelude Grid Perm Runner RunnerInst GridProofs PermProofs RunnerProofs.
+From XV Require GenRunner BridgeRunner.
 From Coq Require Import Permutation.
 Open Scope Z_scope.
 
@@ -91,6 +92,39 @@ Example C01_example_out :
      = Some (enc_rv (hfun 0 [(3, 1); (1, 2); (6, 4)])).
 Proof. vm_compute. split; reflexivity. Qed.
 
+(* a grid with two EQUAL values for one argument (results are keyed by value, so they would share a slot) is
+   refused before anything runs; every other grid is handled by the core the theorems above are about.
+   [dup_free] is exactly NoDup; the test itself (membership by equality, every argument) is regenerated *)
+Lemma dup_free_NoDup : forall l, dup_free l = true <-> NoDup l.
+Proof.
+  induction l as [|x r IH]; cbn.
+  - split; [constructor|reflexivity].
+  - rewrite andb_true_iff, negb_true_iff, IH. unfold mem. split.
+    + intros [Hm Hn]. constructor; [|exact Hn]. intros Hin.
+      assert (existsb (Z.eqb x) r = true) by (apply existsb_exists; exists x; split; [exact Hin|apply Z.eqb_refl]).
+      congruence.
+    + intros Hn. inversion Hn as [|? ? Hni Hnr]; subst. split; [|exact Hnr].
+      destruct (existsb (Z.eqb x) r) eqn:E; [|reflexivity]. apply existsb_exists in E as (y & Hy & Heq).
+      apply Z.eqb_eq in Heq. subst. contradiction.
+Qed.
+
+Theorem C01_duplicates_rejected : forall (R : Type) (f : kwargs -> R) (comps : R -> list R) (i : input),
+  (values_ok i = false -> checked_core f comps i = (ORejected, []))
+  /\ (values_ok i = true -> checked_core f comps i = core f comps i)
+  /\ (values_ok i = true <-> Forall (@NoDup Z) (i_combo_values i))
+  /\ GenRunner.gen_duplicates_rejected_by_equality = true /\ GenRunner.gen_prologue_is_transcribed = true.
+Proof.
+  intros R f comps i. unfold checked_core. split; [intros ->; reflexivity|]. split; [intros ->; reflexivity|].
+  split; [|exact (conj BridgeRunner.bridge_duplicates BridgeRunner.bridge_prologue)].
+  unfold values_ok. rewrite forallb_forall, Forall_forall. split; intros H l Hl; apply dup_free_NoDup, H, Hl.
+Qed.
+
+Example C01_duplicates_example :
+  run_checked_core 0 (mk_input false [] [] [0; 1] [[0; 0; 1]; [0; 1]] [] false false None)
+  = VL [VS "rejected"; VL []].
+Proof. vm_compute. reflexivity. Qed.
+
+Print Assumptions C01_duplicates_rejected.
 Print Assumptions C01_exactly_once.
 Print Assumptions C01_call_order.
 Print Assumptions C01_placement.
